@@ -107,6 +107,13 @@ def findData (fn : Bytes) (tc idx : Nat) (m : Msg) : Option Bytes :=
     if tc = tcAny then (if f.typeCode = tcAny then none else dataAt f idx)
     else if tc = f.typeCode then dataAt f idx else none
 
+/-- `GetInfo(fn, &type)` + `type == B_RAW_TYPE` + `FindFlat(fn, byteBufferRef)`: the first item of a field of exactly
+    type `B_RAW_TYPE`, a zero-length buffer included (which `FindData` cannot hand out) -/
+def findRawBuf (fn : Bytes) (m : Msg) : Option Bytes :=
+  match lookupField fn m.fields with
+  | some (.raws tc _ xs) => if tc = tcRaw then xs[0]? else none
+  | _ => none
+
 /-- `Message::FindString(fieldName, idx, …)` -/
 def findString (fn : Bytes) (idx : Nat) (m : Msg) : Option Bytes :=
   match lookupField fn m.fields with
